@@ -186,6 +186,15 @@ def cache_keys(ctx, rule='A8'):
     ok = 'sorted(' in alltxt and 'get_excluded_indices' in alltxt
     ctx.ob(rule, fkey(gk, rule, 'excluded-sorted'), ok, gk.where,
            'excluded pairs enter the key in sorted order (the same set gives the same key)', '')
+    # existence patterns are addressed by their position in the list (the existence map of a processor stores pattern
+    # indices): their order is part of what is cached, so it is part of the key - no sorted()/set() around them
+    pat = [v for _, v, _, _ in sl.origins(rets[-1].value, node) if v is not None and 'patterns' in norm(v)]
+    unordered = [c for v in pat for c in ast.walk(v) if isinstance(c, ast.Call) and
+                 norm(c.func).split('.')[-1] in ('sorted', 'set', 'frozenset') and 'patterns' in norm(c)]
+    ctx.ob(rule, fkey(gk, rule, 'existence-order-preserved'), bool(pat) and not unordered, gk.where,
+           'the existence patterns enter the key in list order (two settings with the same patterns in another order '
+           'number them differently and must not share a cache entry)',
+           '; '.join(short(v, 70) for v in pat) if not unordered else f'order dropped by `{short(unordered[0], 70)}`')
     # which exclusion is meant is given by position: connector objects have no identity in their rendering
     ex_defs = [v for _, v, _, _ in sl.origins(rets[-1].value, node) if v is not None and
                ('excluded' in norm(v))]
@@ -381,6 +390,8 @@ def check(ctx):
 from ..selftest import V  # noqa: E402
 
 VARIANTS = [
+    V('key-forgets-pattern-order', 'optimization/assign_enc/matrix.py',
+      [("exist_cache_key = ';'.join([str(hash(p)) for p in self.existence.patterns])", "exist_cache_key = ';'.join(sorted(str(hash(p)) for p in self.existence.patterns))")], key='existence-order-preserved'),
     V('partial-enumeration-written-under-full-key', 'optimization/assign_enc/matrix.py',
       [("        for n_src_conn, n_tgt_conn, exist in self._iter_n_sources_targets():\n            if exist not in tuples:", "        for n_src_conn, n_tgt_conn, exist in self._iter_n_sources_targets(existence=existence):\n            if exist not in tuples:")], key='A2d'),
     V('key-renders-targets-with-str', 'optimization/assign_enc/matrix.py',
